@@ -11,6 +11,7 @@ use std::time::Duration;
 
 const CASE_TIMEOUT_S: u64 = 15;     // generous: the machine may be heavily loaded; a real hang is still caught
 const STACK_BYTES: usize = 64 << 20;
+const MAX_DEATHS: usize = 12;
 
 fn read_cases(path: &str) -> Vec<String> {
     let f = std::fs::File::open(path).expect("cases file");
@@ -38,6 +39,7 @@ pub fn parent(cases: &str, results: &str) -> i32 {
     let exe = std::env::current_exe().unwrap();
     let mut start = 0usize;
     let mut respawns = 0;
+    let mut kills = 0;
     while start < n {
         let status = std::process::Command::new(&exe)
             .args(["worker", cases, results, &start.to_string()])
@@ -45,6 +47,19 @@ pub fn parent(cases: &str, results: &str) -> i32 {
             .status().expect("spawn worker");
         let (done, begun) = progress_of(results);
         if status.success() && done >= n { break; }
+        // killed from outside (SIGKILL: the OOM killer, an operator), not by the code under test: run the case again
+        {
+            use std::os::unix::process::ExitStatusExt;
+            if status.signal() == Some(9) && done < n {
+                kills += 1;
+                if kills <= 3 { start = done; continue; }
+                let mut f = std::fs::OpenOptions::new().append(true).open(results).unwrap();
+                writeln!(f, "{}", json!({"i": done, "ok": [], "bad": [{"prop": "TOOL", "ok": false, "kind": "worker-killed",
+                                         "detail": "the replay worker was killed from outside (SIGKILL) four times"}]})).unwrap();
+                start = done + 1;
+                continue;
+            }
+        }
         // the worker died while working on case `done`
         let how = match status.code() { Some(3) => "hang", Some(c) => if c == 0 { "lost" } else { "crash" }, None => "crash" };
         if done >= n { break; }
@@ -55,7 +70,13 @@ pub fn parent(cases: &str, results: &str) -> i32 {
         writeln!(f, "{}", line).unwrap();
         start = done + 1;
         respawns += 1;
-        if respawns > 2000 { eprintln!("harness: too many worker deaths"); return 2; }
+        // enough: the engine has crashed or hung on MAX_DEATHS cases (each hang costs its whole allowance);
+        // the remaining cases are not run -- the verdict cannot become better
+        if respawns >= MAX_DEATHS && start < n {
+            let mut f = std::fs::OpenOptions::new().append(true).open(results).unwrap();
+            writeln!(f, "{}", json!({"i": start, "aborted": n - start, "ok": [], "bad": []})).unwrap();
+            break;
+        }
     }
     0
 }
@@ -88,7 +109,9 @@ pub fn worker(cases: &str, results: &str, start: usize) -> i32 {
                 Ok(v) => v,
                 Err(e) => { writeln!(out, "{}", json!({"i": i, "ok": [], "bad": [{"prop": "TOOL", "ok": false, "kind": "bad-json", "detail": e.to_string()}]})).unwrap(); continue; }
             };
-            allowance.store(match case["t"].as_str().unwrap_or("") { "timer" => 300, "session" => 60, _ => CASE_TIMEOUT_S as usize }, Ordering::SeqCst);
+            allowance.store(match case["t"].as_str().unwrap_or("") { "timer" => 300, "session" => 60,
+                                                                     t if t.starts_with("syn-") && t != "syn-family" && t != "syn-seed" => 6,
+                                                                     _ => CASE_TIMEOUT_S as usize }, Ordering::SeqCst);
             writeln!(out, "{}", json!({"begin": crate::props_of(&case), "i": i})).unwrap();
             out.flush().unwrap();
             let obs = crate::run_case(&case);
